@@ -31,6 +31,9 @@ R4 (K5 taint) for every class registered in request_handlers (each lazy registra
    BzrDir/ControlDir.open*(...) or get_transport*(...) derives from a method parameter unless it passed through
    translate_client_path / transport_from_client_path (attributes assigned in one method and used in another are tracked
    per class).
+Added while testing against seeded changes: R1c jail_info is threading.local(); R3b VfsRequest.translate_client_path
+re-validates the decoded path as a whole and segment by segment (a segment that decodes to '/', '.' or '..' is
+refused).
 Does not decide: urlutils.joinpath / chroot transport semantics (dromedary). With the chroot in place an untranslated path
 is still confined; R4 is the documented first layer.
 """
